@@ -3,6 +3,7 @@ import CuqiVerif.Model.C07
 import CuqiVerif.Model.C07_psf
 import CuqiVerif.Model.C07_obj
 import CuqiVerif.Model.C07_repr
+import CuqiVerif.Model.C07_legacy
 open CuqiVerif CuqiVerif.Proto CuqiVerif.C07
 
 /-!
@@ -26,6 +27,10 @@ Line protocol of the C07 model (R = Rat).
 
   repr  <C> <keeps 0|1> <g0> <g1> <g2> <geq: 9 bits, row-major> <tagThrough: 3 bits> <gd> <gr> <plain|cu:h:ip> <is_par 0|1> <vec>
         -> `<vec> <plain|cu>`: `Model._apply_func(C, range = g_gr, domain = g_gd, x, is_par)` (data of the result, wrapped or not)
+
+  legacy <BC> <size-given 0|1> <dim> <name|-> <vec>   -> `err` | the matrix of `Deconvolution1D(use_legacy=True)` (`vec`: custom PSF, or the
+        profile values h0(0..dim/2) of a named PSF)
+  projshape <n> <s1> <s2>                             -> `r,c`: output shape of `_proj_forward_2D` for an s1 x s2 PSF
 
   geometry tokens: `id:n` `imgC:r:c` `imgF:r:c` `step:n:s` `imgCs:r:c` (Continuous2D) `leaf:<sq|nsq>:pd:fd:<E>:<F>`
 -/
@@ -200,6 +205,19 @@ def stepRepr : List String → Option String
     some (fmtV r.len r.data ++ " " ++ (match r.tag with | .plain => "plain" | .cu _ _ => "cu"))
   | _ => none
 
+def stepLegacy : List String → Option String
+  | ["legacy", bc, sg, dim, name, v] => do
+    let dim ← dim.toNat?; let x ← parseVec v
+    let nm : Option String := if name = "-" then none else some name.toLower
+    match legacyMatrix bc (sg == "1") dim nm x.length (vecFn x) with
+    | none => some "err"
+    | some A => some (fmtL A)
+  | ["projshape", n, s1, s2] => do
+    let n ← n.toNat?; let s1 ← s1.toNat?; let s2 ← s2.toNat?
+    let (r, c) := projOutShape n s1 s2
+    some s!"{r},{c}"
+  | _ => none
+
 def step : List String → String
   | ["geom", g] =>
     match parseGeom g with
@@ -248,6 +266,8 @@ def step : List String → String
     | some o => o
     | none => match stepHist l with
       | some o => o
-      | none => match stepRepr l with | some o => o | none => "bad-op"
+      | none => match stepRepr l with
+        | some o => o
+        | none => match stepLegacy l with | some o => o | none => "bad-op"
 
 def main : IO Unit := runDriver step
